@@ -107,6 +107,12 @@ def parse_template(path):
                 _, ret, rel = d.split()
                 with open(os.path.join(VERIF, rel)) as sf:
                     cur.sig = (ret, sf.read().rstrip('\n'))
+                # lines following the directive (e.g. a decreases clause, which only the proving unit needs) are appended
+                block = []
+
+                def setter(t, cur=cur):
+                    if t.strip():
+                        cur.sig = (cur.sig[0], cur.sig[1] + '\n' + t)
             elif d.startswith('sig'):
                 ret = d.split()[1] if len(d.split()) > 1 else None
                 block = []
@@ -561,10 +567,17 @@ def generate_tpl(tpl, unit, mode=None, canary=None, lenient=False, drop_hints_fo
             extras = []
             for name, path in extra_fns:
                 ex = Extracted()
-                ex.kind, ex.name, ex.path, ex.impl, ex.nth, ex.tpl_line = 'fn', name, path, None, 0, 0
+                ty = None
+                if '::' in name:
+                    ty, name = name.split('::', 1)
+                ex.kind, ex.name, ex.path, ex.impl, ex.nth, ex.tpl_line = 'fn', name, path, ty, 0, 0
                 ex.generic = True
-                extras.append(('note', 'auto-extracted helper %s (called by extracted code, not named in the template): verified without a contract' % name))
+                extras.append(('note', 'auto-extracted helper %s%s (called by extracted code, not named in the template): verified without a contract' % ((ty + '::') if ty else '', name)))
+                if ty:
+                    extras.append(('text', 'impl %s {' % ty))
                 extras.append(('extract', ex))
+                if ty:
+                    extras.append(('text', '}'))
             nodes = nodes[:idx] + extras + nodes[idx:]
     out_lines = []
     regions = []  # (first_line, last_line, kind, name)
